@@ -247,6 +247,7 @@ impl Beh {
             Beh::SchemaJson { .. } => "2xx+schema-json",
             Beh::AnyJson { .. } => "2xx+json",
             Beh::Garbage { .. } => "2xx+garbage",
+            Beh::Status { code, .. } if *code < 400 => "3xx",
             Beh::Status { code, json, .. } => match (*code >= 500, *json) {
                 (false, true) => "4xx+json",
                 (false, false) => "4xx+text",
@@ -294,8 +295,8 @@ fn gen_schema_beh(rng: &mut Rng) -> Beh {
     Beh::SchemaJson { code: if rng.chance(85) { 200 } else { 201 }, text, sdl: schema.to_sdl(&knobs), query: doc.render() }
 }
 
-const BEHAVIOUR_CYCLE: [&str; 12] = [
-    "schema", "json", "garbage", "4xx-json", "schema", "4xx-text", "5xx-json", "refused", "schema", "5xx-text", "cut-head", "cut-body",
+const BEHAVIOUR_CYCLE: [&str; 13] = [
+    "schema", "json", "garbage", "4xx-json", "schema", "4xx-text", "5xx-json", "refused", "schema", "5xx-text", "cut-head", "cut-body", "3xx-json",
 ];
 
 fn gen_behaviour(rng: &mut Rng, class: &str) -> Beh {
@@ -314,8 +315,9 @@ fn gen_behaviour(rng: &mut Rng, class: &str) -> Beh {
             let g = ["", "<html><body>502</body></html>", "{\"data\": {\"__schema\": ", "{} trailing", "undefined", "{'single': 1}", "\u{feff}{}x", "[1,2,", INVALID_UTF8_MARKER];
             Beh::Garbage { text: rng.pick(&g).to_string() }
         }
-        "4xx-json" | "4xx-text" | "5xx-json" | "5xx-text" => {
-            let code = if class.starts_with('4') { *rng.pick(&[400u16, 401, 403, 404, 418, 422, 429]) } else { *rng.pick(&[500u16, 500, 502, 503]) };
+        "3xx-json" | "4xx-json" | "4xx-text" | "5xx-json" | "5xx-text" => {
+            // (3xx: replies the client cannot follow - no Location header - are non-2xx replies like any other)
+            let code = if class.starts_with('3') { *rng.pick(&[300u16, 301, 302, 305]) } else if class.starts_with('4') { *rng.pick(&[400u16, 401, 403, 404, 418, 422, 429]) } else { *rng.pick(&[500u16, 500, 502, 503]) };
             let json = class.ends_with("json");
             let body = if json {
                 rng.pick(&["{\"errors\":[{\"message\":\"introspection is disabled\"}]}", "{}", "{\"data\":{\"__schema\":{\"types\":[]}}}", "null"]).to_string()
@@ -382,7 +384,7 @@ fn gen_full(rng: &mut Rng, index: u64) -> Case {
         authorization,
         headers,
         url_path: rng.pick(&["/graphql", "/", "/api/v1/graphql?x=1"]).to_string(),
-        behaviour: gen_behaviour(rng, BEHAVIOUR_CYCLE[((index / 4) % 12) as usize]),
+        behaviour: gen_behaviour(rng, BEHAVIOUR_CYCLE[((index / 4) % 13) as usize]),
     }
 }
 
@@ -555,7 +557,12 @@ impl Ctx {
         let code = match run.code {
             Some(c) => c,
             None => {
-                self.rep.internal.push(format!("the binary could not be run / was killed: {}", run.stderr_tail()));
+                if run.timed_out {
+                    // the command neither finished nor failed: no generated file, no error message
+                    self.rep.fail("command-does-not-terminate", info(json!({"args": args.iter().map(|a| short(a, 100)).collect::<Vec<_>>(), "observed": run.stderr_tail()})));
+                } else {
+                    self.rep.internal.push(format!("the binary could not be run / was killed: {}", run.stderr_tail()));
+                }
                 return;
             }
         };
